@@ -1426,7 +1426,11 @@ func (vx *Vaxis) openTty(tgts []*os.File) error {
 	}
 
 	vx.tw = newWriter(vx)
-	vx.parser = ansi.NewParser(vx.console)
+	// The goroutine below must keep reading from the parser it was started
+	// for: after Suspend and Resume, vx.parser is a new parser, and the
+	// previous goroutine may still be draining the old one
+	parser := ansi.NewParser(vx.console)
+	vx.parser = parser
 
 	go func() {
 		defer func() {
@@ -1437,13 +1441,13 @@ func (vx *Vaxis) openTty(tgts []*os.File) error {
 		}()
 		for {
 			select {
-			case seq := <-vx.parser.Next():
+			case seq := <-parser.Next():
 				switch seq := seq.(type) {
 				case ansi.EOF:
 					return
 				default:
 					vx.handleSequence(seq)
-					vx.parser.Finish(seq)
+					parser.Finish(seq)
 				}
 			case <-vx.chSigWinSz:
 				atomicStore(&vx.resize, true)
